@@ -717,7 +717,9 @@ class World(object):
         for sim in self.sims.values():
             for port_triggers in sim.triggers.values():
                 for dest_sim, delay in port_triggers:
-                    dest_sim.triggering_ancestors[sim] = delay
+                    new_delay = update_min(dest_sim.triggering_ancestors.get(sim), delay)
+                    if new_delay is not None:
+                        dest_sim.triggering_ancestors[sim] = new_delay
                     dirty.add(dest_sim)
         while dirty:
             sim = dirty.pop()
